@@ -961,7 +961,7 @@ static Boolean LayoutTenBytes(tStrComp const* pExpr, struct sLayoutCtx* pCtx) {
         TranslateString(erg.Contents.str.p_str, erg.Contents.str.len);
 
         for (z = 0; z < erg.Contents.str.len; z++) {
-            if (!pCtx->Put80F(erg.Contents.str.p_str[z], pCtx)) {
+            if (!pCtx->Put80F((unsigned char)erg.Contents.str.p_str[z], pCtx)) {
                 LEAVE;
             }
         }
